@@ -457,8 +457,18 @@ func buildAssignments(files []parsedFile, cfg *Config, preserved *preservationSe
 	minToOrig := make(map[string]string, len(records))
 	origToMin := make(map[string][]string)
 
-	for i, record := range records {
-		newName := fmt.Sprintf("x%d", i+1)
+	// A generated name must not be one the program already spells: a kept
+	// parameter, local or global called x1 would otherwise capture (or be
+	// captured by) the renamed symbol.
+	taken := spelledNames(files)
+	next := 0
+	for _, record := range records {
+		next++
+		newName := fmt.Sprintf("x%d", next)
+		for taken[newName] {
+			next++
+			newName = fmt.Sprintf("x%d", next)
+		}
 		assignments[record.sym] = newName
 		assignmentKeys[symbolLookupKey(record.sym)] = newName
 
@@ -486,6 +496,34 @@ func buildAssignments(files []parsedFile, cfg *Config, preserved *preservationSe
 		MinifiedToOriginal: minToOrig,
 		OriginalToMinified: origToMin,
 	}
+}
+
+// spelledNames returns every symbol name written anywhere in the session's
+// sources, without its package qualifier.
+func spelledNames(files []parsedFile) map[string]bool {
+	names := make(map[string]bool)
+	var walk func(v *lisp.LVal)
+	walk = func(v *lisp.LVal) {
+		if v == nil {
+			return
+		}
+		if v.Type == lisp.LSymbol {
+			name := v.Str
+			if i := strings.LastIndexByte(name, ':'); i >= 0 {
+				name = name[i+1:]
+			}
+			names[name] = true
+		}
+		for _, c := range v.Cells {
+			walk(c)
+		}
+	}
+	for _, file := range files {
+		for _, expr := range file.exprs {
+			walk(expr)
+		}
+	}
+	return names
 }
 
 func applyAssignments(file *parsedFile, assignments map[*analysis.Symbol]string, assignmentKeys map[string]string, cfg *Config) {
